@@ -549,10 +549,15 @@ func c06ManageOnce(c *Ctx) {
 	}) {
 		n++
 		mu := s.In.(*ssa.MapUpdate)
-		empty := Cmp{token.EQL, func(v ssa.Value) bool {
+		sameSlot := func(v ssa.Value) bool {
 			lk, ok := strip(v).(*ssa.Lookup)
 			return ok && samePath(lk.X, mu.Map) && samePath(lk.Index, mu.Key)
-		}, IsNil()}
+		}
+		// `m[k] == nil`, or `_, taken := m[k]; !taken`
+		empty := AnyOf{Cmp{token.EQL, sameSlot, IsNil()}, Truth{func(v ssa.Value) bool {
+			ex, ok := v.(*ssa.Extract)
+			return ok && ex.Index == 1 && sameSlot(ex.Tuple)
+		}, false}}
 		g, path := WholeFn(fn).Guarded(s, empty)
 		c.Check(g, rule, fn, "slot-empty-before-store", mu, "the new manager is stored only into an empty slot", "ManagePartition can replace a partition manager that is still registered (for instance one that was closed but not yet flushed): its pending mark is dropped from the table and no later commit — not even the final one of Close — carries it", path)
 	}
